@@ -281,7 +281,7 @@ def _c04_one(ctx: Any, case: Dict[str, Any], name: str) -> None:
             ctx.violation("cli.report-missing", {"files": res.files}, case)
             return
         tax_rows = tax_report_rows(tax_path)
-        rel = Fraction(1, 10**12)
+        rel = Fraction(1, 10**14)  # a cell is the double nearest to an exact decimal: 1.2e-16 relative
         for asset, hist in hists.items():
             model = Model(hist)
             trace, problems = decode_trace(report, asset, model)
@@ -327,7 +327,8 @@ def c04(ctx: Any, total: int) -> None:
             break
         index = ctx.shard + i * ctx.nshards
         rng = ctx.rng("cli", index)
-        profile = cli_profile(p_optional_fiat=0.6, p_inconsistent_fiat=0.8, p_in_fiat_fee=0.4, p_out_crypto_fee=0.6, p_earn=0.3, max_events=14, min_events=5, mixed_tz=rng.random() < 0.3)
+        # half of the inputs carry numbers with up to 15 significant digits (large amounts at full cell precision)
+        profile = cli_profile(p_optional_fiat=0.6, p_inconsistent_fiat=0.8, p_in_fiat_fee=0.4, p_out_crypto_fee=0.6, p_earn=0.3, max_events=14, min_events=5, mixed_tz=rng.random() < 0.3, amount_style="mixed" if i % 2 else "cli", price_style="mixed" if i % 2 else "small")
         hists = cli_histories(rng, rng.choice((1, 2)), profile)
         _c04_one(ctx, _case(hists, "us", ["-m", rng.choice(METHODS)], None), f"c04-{index}")
 
